@@ -69,6 +69,10 @@ UpdateRejected(w, a) ==
                                                            \* the assignment in force, and this time Prometheus takes the reload)
   ELSE [Update(w, a) EXCEPT !.store = w.store, !.loaded = w.loaded]
 
+(* An update whose FIRST callback fails (the generated configuration can not be written): nothing is in force, nothing  *)
+(* is written, Prometheus is not asked - the state is what it was.                                                       *)
+UpdateRejectedW(w, a) == IF RejectKeepsOld THEN w ELSE [Update(w, a) EXCEPT !.store = w.store, !.loaded = w.loaded, !.gen = w.gen]
+
 (* Completion of one proxied scrape of hash h (A.11).  ok: the real scrape succeeded;     *)
 (* kept / total: samples after / before metric relabeling.  A scrape of an unassigned      *)
 (* hash changes nothing.                                                                  *)
